@@ -378,7 +378,7 @@ class ProgressBar(object):
     @property
     def bar_offset(self):  # type: () -> int
         if self._max:
-            return math.floor(self._percent * self.bar_width)
+            return self._step * self.bar_width // self._max
         else:
             if self.redraw_freq is None:
                 return math.floor(
@@ -443,4 +443,7 @@ class ProgressBar(object):
         return self._max
 
     def _formatter_percent(self):
-        return int(math.floor(self._percent * 100))
+        if not self._max:
+            return 0
+
+        return self._step * 100 // self._max
